@@ -25,6 +25,10 @@ func spec_rhsLen(r int) int
 func spec_ERR() int { return spec_nstates() + 100 }
 func spec_ACC() int { return spec_nstates() + 200 }
 
+// display name of a symbol id (the generated TraceTranslate table) and the rule whose text a trace line shows
+func spec_symName(c int) string
+func spec_traceRule(i int) int
+
 // the semantic action of rule r: assumption A-act - it reads and writes only $$ and reads the window $1..$n
 func spec_userAction(r int, dollarDolar *StateSym, Dollar []StateSym)
 */
@@ -35,6 +39,9 @@ func spec_userAction(r int, dollarDolar *StateSym, Dollar []StateSym)
 // =============================================================================================
 //@ section goCode
 // (everything in this section is also instantiated for goObject through the renamings)
+
+// ghost output log of fmt.Printf calls: entry i has format printed_fmt(i) and arguments printed_str/int(i, k)
+//@ ghostvar tlen int
 
 // Hypotheses about the LR(0) automaton (AP*, see DESIGN §4; leaf functions proved under C09, orchestration bounded)
 // and the table encoding (TC*: postcondition of GenTable).
@@ -70,7 +77,10 @@ func spec_userAction(r int, dollarDolar *StateSym, Dollar []StateSym)
 //@ ensures StackPointer == old(StackPointer) + 1 && StackPointer <= len(StateSymStack) && len(StateSymStack) >= old(len(StateSymStack))
 //@ ensures [C01,C07] StateSymStack[old(StackPointer)] == old(*state)
 //@ ensures [C01,C15] forall k int :: 0 <= k && k < old(StackPointer) ==> StateSymStack[k] == old(StateSymStack[k])
-//@ modifies StateSymStack, StackPointer
+// exactly one trace line per push: the symbol and the state of the entry pushed (C17)
+//@ ensures [C17] IsTrace ==> tlen == old(tlen) + 1 && printed_str(old(tlen), 0) == spec_symName(old(state.YySymIndex)) && printed_int(old(tlen), 1) == old(state.Yystate)
+//@ ensures [C17] !IsTrace ==> tlen == old(tlen)
+//@ modifies StateSymStack, StackPointer, tlen
 
 //@ func PopStateSym
 //@ props C01 C07 C08
@@ -119,19 +129,25 @@ func spec_userAction(r int, dollarDolar *StateSym, Dollar []StateSym)
 //@ modifies *val, *pos
 
 //@ func TraceTranslate
-//@ trusted generated lookup table (symbol id -> name), checked under C17
+//@ trusted generated lookup table symbol id -> display name; its entries are tied to the grammar by the emits clauses of buildTranslate
 //@ props C01 C06 C17
+//@ ensures result == spec_symName(c)
 //@ modifies nothing
 
 //@ func TraceReduce
-//@ trusted generated printing switch, checked under C17
+//@ trusted generated printing switch: case r prints the text of rule r (tied to the grammar by the emits clauses of buildTranslate), the lookahead name and the goto state
 //@ props C01 C06 C17
-//@ modifies nothing
+//@ ensures IsTrace ==> tlen == old(tlen) + 1 && spec_traceRule(old(tlen)) == reduceIndex && printed_str(old(tlen), 0) == look && printed_int(old(tlen), 1) == s
+//@ ensures !IsTrace ==> tlen == old(tlen)
+//@ modifies tlen
 
 //@ func TraceShift
 //@ props C01 C06 C17
 //@ requires s != nil
-//@ modifies nothing
+//@ ensures [C17] IsTrace ==> tlen == old(tlen) + 1 && printed_fmt(old(tlen)) == "Shift %s, push state %d\n" &&
+//@     printed_str(old(tlen), 0) == spec_symName(s.YySymIndex) && printed_int(old(tlen), 1) == s.Yystate
+//@ ensures [C17] !IsTrace ==> tlen == old(tlen)
+//@ modifies tlen
 
 //@ func fetchLookAhead
 //@ props C01 C06 C08
@@ -140,7 +156,7 @@ func spec_userAction(r int, dollarDolar *StateSym, Dollar []StateSym)
 //@ modifies *val, *pos
 
 //@ func Parser
-//@ props C01 C06 C07 C08 C15
+//@ props C01 C06 C07 C08 C15 C17
 //@ results v
 //@ use SIZES, AP0, AP1, AP2, TC, TCgoto, TC0
 //@ requires INV(StateSymStack, StackPointer) && tablesOK()
@@ -159,6 +175,9 @@ func spec_userAction(r int, dollarDolar *StateSym, Dollar []StateSym)
 //@ before_stmt [C01,C07] "SymTy := ReduceFunc(reduceIndex)" 1 <= reduceIndex && reduceIndex < spec_nrules() && spec_rhsLen(reduceIndex) <= StackPointer - 1 &&
 //@     (forall n int :: 1 <= n && n <= spec_rhsLen(reduceIndex) ==> StateSymStack[StackPointer-1-spec_rhsLen(reduceIndex)+n].YySymIndex == spec_rhs(reduceIndex, n-1))
 // the entry pushed after a reduction is (goto(top, lhs r), lhs r, $$) (C01, C07)
+// the reduce line is printed after the reduction and before the goto push, and names the rule actually reduced, the
+// state actually pushed and the lookahead that triggered it (C17)
+//@ before_stmt [C17] "PushStateSym(SymTy)" IsTrace ==> spec_traceRule(tlen-1) == reduceIndex && printed_int(tlen-1, 1) == SymTy.Yystate && printed_str(tlen-1, 0) == spec_symName(lookAhead)
 //@ before_stmt [C01] "PushStateSym(SymTy)" SymTy.YySymIndex == spec_lhs(reduceIndex) && SymTy.Yystate == spec_goto(StateSymStack[StackPointer-1].Yystate, spec_lhs(reduceIndex)) &&
 //@     0 < SymTy.Yystate && SymTy.Yystate < spec_nstates()
 
